@@ -206,6 +206,8 @@ def codecStep (toks : List String) : String :=
 def udpStep (st : DState) (toks : List String) : DState × String :=
   match toks with
   | ["new"] => ({ st with udpBuf := Udp.initBuffer }, "ok")
+  -- the next `n` datagrams are all queued at the socket before `receive()` is called for the first of them
+  | ["burst", _] => (st, "ok")
   | ["recv", h] =>
     match unhex h with
     | some dg =>
